@@ -86,7 +86,7 @@ def run(ctx):
         for v in a.get("violations") or []:
             ctx.violation("bft-" + v["key"], v["what"], dict(tree=v.get("replay"), cfg=hcfg))
         log("[c02] chain enumeration: %d chains replayed, %d with finality" % (a["distinct_paths"], a["paths_with_finality"]))
-    if tot["headers_with_finality"] == 0 or tot["setparams_ok"] < 2:
+    if not ctx.violations and (tot["headers_with_finality"] == 0 or tot["setparams_ok"] < 2):
         raise Inconclusive("driver never reached finality / parameter changes: vacuous")
     cov = dict(traces_validated_against_impl=tot["chains"] + (a["distinct_paths"] if a else 0), samples=samples[:3],
                recorded_events=tot["events"], headers=tot["headers"], headers_with_finality=tot["headers_with_finality"],
